@@ -264,9 +264,11 @@ def sig_diff(m1, m2):
             # a declared shape may be refined (None -> value) but a declared dim must not change
             if len(a[3]) != len(b[3]):
                 return f"declared rank of '{a[0]}' changed: {a[3]} -> {b[3]}"
-            for p, q in zip(a[3], b[3]):
-                if isinstance(p, int) and p != q:
-                    return f"declared shape of '{a[0]}' changed: {a[3]} -> {b[3]}"
+            if any(isinstance(p, int) and q is not None and p != q for p, q in zip(a[3], b[3])):
+                return f"declared shape of '{a[0]}' changed: {a[3]} -> {b[3]}"
+            if any(isinstance(p, int) and q is None for p, q in zip(a[3], b[3])):
+                # nothing contradicts the declaration, but declared dims were forgotten
+                return f"declared shape of '{a[0]}' lost: {a[3]} -> {b[3]}"
         if a[3] is not None and b[3] is None:
             return f"declared shape of '{a[0]}' lost: {a[3]} -> None"
     return None
@@ -278,7 +280,46 @@ def reduction_scale(m):
     heavy = sum(1 for x in m.graph.node if x.op_type in ("MatMul", "Gemm", "Conv", "ReduceSum", "ReduceMean", "ReduceProd", "ReduceL2",
                                                        "ReduceSumSquare", "Softmax", "LogSoftmax", "LayerNormalization",
                                                        "BatchNormalization", "CumSum", "AveragePool", "Loop"))
-    return 1.0 + 0.25 * n + 4.0 * heavy
+    return compare.Scale(1.0 + 0.25 * n + 4.0 * heavy, floor=float_floor(m))
+
+
+def float_floor(m):
+    """Lowest float precision that occurs anywhere in the model (graph inputs, initializers, constants, Cast targets,
+    value_info, subgraphs, functions): a float64 output computed through float32 values carries float32 error."""
+    TP = onnx.TensorProto
+    rank = {TP.DOUBLE: 0, TP.FLOAT: 1, TP.BFLOAT16: 2, TP.FLOAT16: 3}
+    names = {0: "float64", 1: "float32", 2: "bfloat16", 3: "float16"}
+    worst = [-1]
+
+    def see(t):
+        if t in rank:
+            worst[0] = max(worst[0], rank[t])
+
+    def walk(g):
+        for x in list(g.input) + list(g.output) + list(g.value_info):
+            see(x.type.tensor_type.elem_type)
+        for t in g.initializer:
+            see(t.data_type)
+        nodes(g.node)
+
+    def nodes(ns):
+        for n in ns:
+            for a in n.attribute:
+                if a.name == "to" or a.name == "dtype":
+                    see(a.i)
+                if a.HasField("t"):
+                    see(a.t.data_type)
+                if a.type == onnx.AttributeProto.FLOAT or a.type == onnx.AttributeProto.FLOATS:
+                    pass
+                if a.HasField("g"):
+                    walk(a.g)
+                for sg in a.graphs:
+                    walk(sg)
+
+    walk(m.graph)
+    for f in m.functions:
+        nodes(f.node)
+    return names.get(worst[0])
 
 
 _RANDOM_OPS = {"RandomUniform", "RandomNormal", "RandomUniformLike", "RandomNormalLike", "Multinomial", "Bernoulli"}
